@@ -2533,10 +2533,17 @@ func ruleCopyEmpty(prop string) ruleFn {
 // TERM-FILTER (C02, C08): one filter decides which strings are terms.
 func ruleTermFilter(prop string) ruleFn {
 	return func(w *World, r *Report) {
-		r.Rule("TERM-FILTER", "in the term extractor every string that is added to the term set passes the extractor's own filter: each call that adds to the set (StringSet.Add / AddStrings / AddAll) is control-dependent on a test of IsVariable of the added string (variables are not terms) — the same function produces the terms of stored facts and of search patterns, so a string that one container kind lets through unfiltered becomes a pattern term that no stored fact is indexed under (the deleteWith cascade searches with a []string, stored facts carry []interface{})", 1)
+		r.Rule("TERM-FILTER", "in the term extractor every string that is added to the term set passes the extractor's own filter: each call that adds to the set (StringSet.Add / AddStrings / AddAll) is control-dependent on a test of IsVariable of the added string (variables are not terms) and, if any of them is, on the comparison of its length with SystemParameters.StringLengthTermLimit — the same function produces the terms of stored facts and of search patterns, so a string that one container kind lets through unfiltered becomes a pattern term that no stored fact is indexed under (the deleteWith cascade searches with a []string, stored facts carry []interface{})", 1)
 		fn := w.Func("core", "extractTermsAux")
 		isVar := w.Func("core", "IsVariable")
 		n := 0
+		type site struct {
+			in      ssa.Instruction
+			key     string
+			isVar   bool
+			limited bool
+		}
+		var sites []site
 		allInstrs(fn, func(in ssa.Instruction) {
 			c := callOf(in)
 			if c == nil {
@@ -2558,24 +2565,68 @@ func ruleTermFilter(prop string) ruleFn {
 			for _, a := range c.Args[1:] {
 				added = append(added, a)
 			}
+			isAdded := func(v ssa.Value) bool {
+				for _, a := range added {
+					if sameValue(v, a) || dependsOn(a, func(x ssa.Value) bool { return x == v }) {
+						return true
+					}
+				}
+				return false
+			}
 			guarded := controlDependsOn(fn, in, func(v ssa.Value) bool {
 				call, ok := v.(*ssa.Call)
 				if !ok || call.Common().StaticCallee() != isVar || len(call.Call.Args) == 0 {
 					return false
 				}
-				for _, a := range added {
-					if sameValue(call.Call.Args[0], a) || dependsOn(a, func(x ssa.Value) bool { return x == call.Call.Args[0] }) {
-						return true
-					}
-				}
-				return false
+				return isAdded(call.Call.Args[0])
 			})
-			if guarded {
-				r.ok("TERM-FILTER", key, w.PosOf(in), "under the IsVariable test of the added string")
-			} else {
-				r.violation("TERM-FILTER", "fn="+fname(fn), w.PosOf(in), "strings are added to the term set without passing the extractor's filter (variables, over-long strings): patterns and stored facts no longer yield the same terms")
-			}
+			// the length limit: a comparison of len(added string) with SystemParameters.StringLengthTermLimit
+			limited := controlDependsOn(fn, in, func(v ssa.Value) bool {
+				bo, ok := v.(*ssa.BinOp)
+				if !ok {
+					return false
+				}
+				switch bo.Op {
+				case token.LSS, token.LEQ, token.GTR, token.GEQ:
+				default:
+					return false
+				}
+				isLen := func(x ssa.Value) bool {
+					return dependsOn(x, func(y ssa.Value) bool {
+						lc, ok := y.(*ssa.Call)
+						if !ok {
+							return false
+						}
+						b, isB := lc.Common().Value.(*ssa.Builtin)
+						return isB && b.Name() == "len" && len(lc.Common().Args) == 1 && isAdded(lc.Common().Args[0])
+					})
+				}
+				isLimit := func(x ssa.Value) bool {
+					return dependsOn(x, func(y ssa.Value) bool {
+						_, f, _, ok := loadedField(y)
+						return ok && f == "StringLengthTermLimit"
+					})
+				}
+				return (isLen(bo.X) && isLimit(bo.Y)) || (isLen(bo.Y) && isLimit(bo.X))
+			})
+			sites = append(sites, site{in, key, guarded, limited})
 		})
+		anyLimited := false
+		for _, st := range sites {
+			if st.limited {
+				anyLimited = true
+			}
+		}
+		for _, st := range sites {
+			switch {
+			case !st.isVar:
+				r.violation("TERM-FILTER", "fn="+fname(fn), w.PosOf(st.in), "strings are added to the term set without passing the extractor's filter (variables, over-long strings): patterns and stored facts no longer yield the same terms")
+			case anyLimited && !st.limited:
+				r.violation("TERM-FILTER", "fn="+fname(fn), w.PosOf(st.in), "strings are added to the term set here without the length limit (StringLengthTermLimit) that the extractor applies elsewhere: a pattern holding a long string in this kind of container (the deleteWith cascade's []string) asks the index for a term no stored fact was filed under")
+			default:
+				r.ok("TERM-FILTER", st.key, w.PosOf(st.in), "under the IsVariable test of the added string (and the length limit, where the extractor has one)")
+			}
+		}
 		if n == 0 {
 			r.exempt("TERM-FILTER", "fn="+fname(fn), w.Pos(fn.Pos()), "the extractor does not add to a StringSet directly: shape not recognised, not decided")
 		}
@@ -5366,4 +5417,87 @@ func ruleWhenAgree(prop string) ruleFn {
 			r.ok("WHEN-AGREE", key, w.Pos(um.Pos()), "a bare `when` is decoded as the pattern, as it is indexed")
 		}
 	}
+}
+
+// PROP-DW-ANY (C08, C10): a property goes with its target however it was written.
+func rulePropDwAny(prop string) ruleFn {
+	return func(w *World, r *Report) {
+		r.Rule("PROP-DW-ANY", "premise: core.GenId stores every fact that carries a `!prop` key under the canonical property id of its target (checked: it calls parseProp and genPropId), so a property can be written with the plain fact API as well as with SetProp.  Conclusion: core.PrepareFact, through which every write goes, gives such a fact a `deleteWith` that names the target: a map update with the key deleteWith, control-dependent on parseProp's is-a-property result, whose value contains the target id parseProp returned.  Otherwise a property written as a fact (a `disabled` flag, say) survives its target, and a rule added later under that id inherits it", 1)
+		gen := w.Func("core", "GenId")
+		pp := w.Func("core", "parseProp")
+		gpi := w.Func("core", "genPropId")
+		prep := w.Func("core", "PrepareFact")
+		key := "fn=" + fname(prep)
+		calls := func(fn, callee *ssa.Function) []*ssa.Call {
+			var out []*ssa.Call
+			allInstrs(fn, func(in ssa.Instruction) {
+				if c, ok := in.(*ssa.Call); ok && c.Common().StaticCallee() == callee {
+					out = append(out, c)
+				}
+			})
+			return out
+		}
+		if len(calls(gen, pp)) == 0 || len(calls(gen, gpi)) == 0 {
+			r.exempt("PROP-DW-ANY", key, w.Pos(gen.Pos()), "premise fails: GenId no longer derives property ids from the fact itself; not decided by this rule")
+			return
+		}
+		pcs := calls(prep, pp)
+		found := false
+		allInstrs(prep, func(in ssa.Instruction) {
+			mu, ok := in.(*ssa.MapUpdate)
+			if !ok {
+				return
+			}
+			if k, isC := constKey(mu.Key); !isC || k != "deleteWith" {
+				return
+			}
+			for _, pc := range pcs {
+				isProp := func(v ssa.Value) bool {
+					e, ok := v.(*ssa.Extract)
+					return ok && e.Tuple == ssa.Value(pc) && e.Index == 0
+				}
+				target := func(v ssa.Value) bool {
+					e, ok := v.(*ssa.Extract)
+					return ok && e.Tuple == ssa.Value(pc) && e.Index == 1
+				}
+				if controlDependsOn(prep, in, isProp) && sliceHolds(mu.Value, target) {
+					found = true
+				}
+			}
+		})
+		if found {
+			r.ok("PROP-DW-ANY", key, w.Pos(prep.Pos()), "a fact that is a property gets a deleteWith naming its target")
+		} else {
+			r.violation("PROP-DW-ANY", key, w.Pos(prep.Pos()), "PrepareFact gives a fact that is a property no deleteWith: written with the plain fact API, a property survives the fact or rule it belongs to")
+		}
+	}
+}
+
+// sliceHolds: v is (an interface around) a slice literal one of whose elements satisfies pred (stores into the
+// backing array of a `new [n]T; slice` literal).
+func sliceHolds(v ssa.Value, pred func(ssa.Value) bool) bool {
+	if mi, ok := v.(*ssa.MakeInterface); ok {
+		v = mi.X
+	}
+	sl, ok := v.(*ssa.Slice)
+	if !ok {
+		return dependsOn(v, pred)
+	}
+	al, ok := sl.X.(*ssa.Alloc)
+	if !ok {
+		return dependsOn(v, pred)
+	}
+	held := false
+	for _, ref := range *al.Referrers() {
+		ia, ok := ref.(*ssa.IndexAddr)
+		if !ok {
+			continue
+		}
+		for _, ref2 := range *ia.Referrers() {
+			if st, ok := ref2.(*ssa.Store); ok && st.Addr == ssa.Value(ia) && dependsOn(st.Val, pred) {
+				held = true
+			}
+		}
+	}
+	return held
 }
